@@ -93,107 +93,82 @@ def rule_reset(facts, rep):
 
 
 def rule_order(facts, rep):
+    """write_colored by abstract evaluation, per colour case and per failing stream call: the calls made on the stream, in order and
+    with what they write, the value returned, and that the first error ends the call at once.  `write!(stream, "{}", x.render())`,
+    `let x = x.map(render); write!(stream, "{x}")`, explicit matches instead of `?` all evaluate alike."""
+    import abseval
     b = facts.body("anstyle_wincon", F)
     rep.fn(b["path"])
     names = [p.get("name") for p in b["params"]]
     rep.check(names == ["stream", "fg", "bg", "data"], "order", b["path"], "signature", f"{names}", loc(b))
-    pid = {p["name"]: p.get("id") for p in b["params"]}
-    paths = hir.enumerate_paths(b["hir"])
-    R = hir.Resolver(b["hir"])
-    _RES[0] = R
-    SOME, NONE = "core::option::Option::Some", "core::option::Option::None"
+    ONE_PLACEHOLDER = ("bytes", (0xc0, 0x00))        # format_args!("{}", x): one argument, default formatting, no literal text
     seen_cases = set()
+    n_paths = 0
+    all_ok_errors = True
     for fgs, bgs in itertools.product((False, True), repeat=2):
-        present = {pid["fg"]: fgs, pid["bg"]: bgs}
-
-        def val(e, depth=0):
-            e = hir.simp(e)
-            k = e.get("k")
-            if k == "local":
-                if e.get("id") in present:
-                    return ("enum", SOME if present[e["id"]] else NONE)
-                init = R.res(e)
-                if init is not e and depth < 5:
-                    return val(init, depth + 1)
-                return None
-            if k == "tuple":
-                vs = [val(x, depth + 1) for x in e["es"]]
-                return None if any(v is None for v in vs) else ("tuple",) + tuple(vs)
-            if k == "call" and hir.callee(e).split("::")[-1] in ("is_some", "is_none") and e.get("args"):
-                v = val(e["args"][0], depth + 1)
-                if v is not None and v[0] == "enum":
-                    return ("bool", (v[1] == SOME) == (hir.callee(e).endswith("is_some")))
-            if k == "lit" and e.get("t") == "bool":
-                return ("bool", e["v"])
-            if (k == "bin" and e.get("op") in ("And", "Or")) or (k == "un" and e.get("op") == "Not"):
-                try:
-                    def at(n):
-                        v = val(n, depth + 1)
-                        return v[1] if v is not None and v[0] == "bool" else None
-                    return ("bool", hir.bool_eval(e, at))
-                except Unrecognised:
-                    return None
-            if k == "match" and e.get("src") == "Normal" and all(hir.lit_val(a["body"]) in (True, False) for a in e["arms"]):
-                v = val(e["scrut"], depth + 1)      # matches!(..)
-                if v is not None:
-                    for a in e["arms"]:
-                        m = hir.pat_matches(a["pat"], v)
-                        if m is None:
-                            return None
-                        if m:
-                            return ("bool", hir.lit_val(a["body"]))
-            return None
         case = f"fg={'Some' if fgs else 'None'},bg={'Some' if bgs else 'None'}"
-        ok_paths = [p for p in paths if hir.path_feasible(p, val) and p.exit != "ret-err"]
-        for p in ok_paths:
-            if p.exit not in ("value", "ret"):
-                rep.bad("order", b["path"], "unexpected-exit", f"path leaves by {p.exit}", loc(b))
-                continue
-            seen_cases.add(case)
+
+        def run(choices, fgs=fgs, bgs=bgs):
             events = []
-            for t in p.trace:
-                if t[0] == "eval":
-                    for c in classify_all(t[1]):
-                        events.append((c, t[1]))
-            got = [e[0][0] for e in events]
-            want = (["FG"] if fgs else []) + (["BG"] if bgs else []) + ["DATA"] + (["RESET"] if (fgs or bgs) else [])
-            rep.check(got == want, "order", b["path"], f"sequence[{case}]",
-                      f"effects on the stream must be {want}; this path performs {got}", loc(b))
-            args_ok = True
-            O = hir.Origins(b["hir"])
-            for (k, v), call in events:
-                if k in ("FG", "BG"):
-                    # the colour rendered is the like-named parameter (possibly re-bound by `if let Some(fg) = fg`)
-                    pieces, fargs = hir.fmt_template(hir.simp(call)["args"][1])
-                    srcs = []
-                    for pc in pieces:
-                        if not isinstance(pc, str):
-                            a = R.res(hir.peel(fargs[pc[1]]))
-                            if hir.is_call(a, "render_fg", "render_bg"):
-                                o, pr = O.of(a["args"][0])
-                                srcs.append((hir.callee(a).split("::")[-1], o.get("id") if o.get("k") == "local" else None))
-                    want_src = ("render_fg", pid["fg"]) if k == "FG" else ("render_bg", pid["bg"])
-                    args_ok = args_ok and want_src in srcs
-                if k == "DATA":
-                    args_ok = args_ok and v == "data"
-            rep.check(args_ok, "order", b["path"], f"arguments[{case}]", f"{[e[0] for e in events]}", loc(b))
-            # returned count = result of the data write: Ok(n) with n = stream.write(data)?, or stream.write(data) returned as is
-            v = hir.simp(p.value) if p.value is not None else {}
-            ok = False
-            if v.get("k") == "call" and v.get("ctor", "").endswith("Result::Ok"):
-                src, proj = O.of(v["args"][0])
-                ok = classify(src) == ("DATA", "data") and proj in (("Ok",), ())
-            elif classify(v) == ("DATA", "data"):
-                ok = True
-            rep.check(ok, "order", b["path"], f"returns-count-of-data-write[{case}]", "the result is the count accepted by stream.write(data)", loc(b))
+
+            def stream_call(kind):
+                def f_(a_):
+                    i = len(events)
+                    events.append((kind, a_[1]))
+                    if ev.oracle(("call-ok", i)):
+                        return ("ok", ("sym", f"count-{i}") if kind == "data" else ("unit",))
+                    return ("err", ("sym", f"error-{i}"))
+                return f_
+            atoms = {"std::io::Write::write_fmt": stream_call("fmt"), "std::io::Write::write": stream_call("data"),
+                     "std::io::Write::write_all": stream_call("write_all"),
+                     "core::fmt::rt::Argument::<'_>::new_display": lambda a_: ("display", a_[0]),
+                     "core::fmt::Arguments::<'a>::new": lambda a_: ("format", a_[0], a_[1]),
+                     "anstyle::color::AnsiColor::render_fg": lambda a_: ("render_fg", a_[0]),
+                     "anstyle::color::AnsiColor::render_bg": lambda a_: ("render_bg", a_[0]),
+                     "anstyle::reset::Reset::render": lambda a_: ("render_reset",)}
+            ev = abseval.Evaluator(facts, "anstyle_wincon", atoms)
+            ev.choices = choices
+            r = ev.call_fn("anstyle_wincon", b["path"], [("sym", "stream"), ("some", ("sym", "FG")) if fgs else ("none",),
+                                                         ("some", ("sym", "BG")) if bgs else ("none",), ("sym", "data")])
+            return events, r
+        want = ([("fmt", ("format", ONE_PLACEHOLDER, ("array", ("display", ("render_fg", ("sym", "FG"))))))] if fgs else []) + \
+               ([("fmt", ("format", ONE_PLACEHOLDER, ("array", ("display", ("render_bg", ("sym", "BG"))))))] if bgs else [])
+        data_at = len(want)
+        want = want + [("data", ("sym", "data"))] + ([("fmt", ("format", ONE_PLACEHOLDER, ("array", ("display", ("render_reset",)))))] if (fgs or bgs) else [])
+        try:
+            results = abseval.explore(run)
+        except Unrecognised as ex:
+            rep.bad("order", b["path"], "unrecognised-idiom", f"unrecognised-idiom: {ex}", loc(b))
+            continue
+        seen_cases.add(case)
+        seq_ok = args_ok = ret_ok = True
+        why = ""
+        covered = set()
+        for choices, (events, r) in results:
+            n_paths += 1
+            failing = sorted(k[1] for k, v in choices.items() if k[0] == "call-ok" and not v)
+            upto = (failing[0] + 1) if failing else len(want)
+            covered.add(failing[0] if failing else None)
+            kinds_got, kinds_want = [e_[0] for e_ in events], [e_[0] for e_ in want[:upto]]
+            if kinds_got != kinds_want:
+                seq_ok, why = False, f"failing call {failing[:1]}: stream calls {kinds_got}, expected {kinds_want}"
+            elif events != want[:upto]:
+                args_ok, why = False, f"stream calls carry {events}, expected {want[:upto]}"
+            want_r = ("err", ("sym", f"error-{failing[0]}")) if failing else ("ok", ("sym", f"count-{data_at}"))
+            if r != want_r:
+                if failing:
+                    all_ok_errors = False
+                ret_ok, why = False, f"failing call {failing[:1]}: returns {r}, expected {want_r}"
+        if covered != set([None] + list(range(len(want)))):
+            seq_ok, why = False, f"cases reached {sorted(covered, key=str)}: not every stream call can fail on its own"
+        effects = [{"fmt": None, "data": "DATA"}[k] or "?" for k, _ in want]
+        rep.check(seq_ok, "order", b["path"], f"sequence[{case}]", f"effects on the stream: colour codes requested, data, reset iff a colour was set; the first error ends the call {why}"[:400], loc(b))
+        rep.check(args_ok, "order", b["path"], f"arguments[{case}]", f"each formatted write is exactly one `{{}}` of render_fg(fg) / render_bg(bg) / Reset.render(), the data write gets `data` {why}"[:400], loc(b))
+        rep.check(ret_ok, "order", b["path"], f"returns-count-of-data-write[{case}]", f"the result is the count accepted by stream.write(data) {why}"[:400], loc(b))
+    rep.count(n_paths)
     rep.check(seen_cases == {"fg=None,bg=None", "fg=Some,bg=None", "fg=None,bg=Some", "fg=Some,bg=Some"}, "order", b["path"], "four-colour-cases",
               f"{sorted(seen_cases)}", loc(b))
-    # every fallible stream call is under `?` or is the returned value itself
-    calls = [n for n in hir.walk(b["hir"]) if n.get("k") == "call" and classify_all(n) and all(c[0] in ("DATA", "FG", "BG", "RESET") for c in classify_all(n))]
-    tried = [hir.simp(hir.try_inner(n)) for n in hir.walk(b["hir"]) if n.get("k") == "match" and n.get("src") == "TryDesugar"]
-    returned = [hir.simp(n["e"]) for n in hir.walk(b["hir"]) if n.get("k") == "ret" and "e" in n] + [hir.simp(hir.stmts_of(b["hir"])[-1])]
-    rep.check(len(calls) >= 4 and all(any(c is t for t in tried + returned) for c in calls), "order", b["path"], "errors-propagate",
-              "each stream call is followed by `?` (or is the function's result)", loc(b))
+    rep.check(all_ok_errors and n_paths >= 13, "order", b["path"], "errors-propagate", f"every error of a stream call is returned as it is ({n_paths} paths evaluated)", loc(b))
 
 
 def rule_impls(facts, rep):
